@@ -135,7 +135,7 @@ def _desc(draw, tier):
     pool = {
         'uint': [c for c in cols if family(c) in ('N', 'plain') and c in ('N', 'id', 'L0_N', 'ntaggedA', 'N_interp', 'index_halo', 'origin', 'L2_N')],
         'vec': [c for c in cols if c.startswith('x_') or c.startswith('v_') or c.startswith('SO') or 'eigenvecs' in c or c.startswith('sigmar') or c in ('pos_avg',)],
-        'dep': [c for c in cols if c.startswith('sigmavM') or c.startswith('sigmav3d') or 'eigenvecs' in c or c in ('pos_avg', 'vel_avg', 'pos_interp', 'vel_interp')],
+        'dep': [c for c in cols if c.startswith('sigmavM') or c.startswith('sigmav3d') or c.startswith('r100') or 'eigenvecs' in c or c in ('pos_avg', 'vel_avg', 'pos_interp', 'vel_interp')],
         'clean': [c for c in cols if c in names()['clean']],
         'none': [],
     }[tail]
